@@ -410,7 +410,16 @@ func (d *Driver) Apply(s Step) bool {
 		ev.Args["pool"] = u(p.PoolId)
 		var maxIn sdk.Coins
 		shareOut := math.ZeroInt()
-		if s.S("mode") == "single" {
+		if s.S("mode") == "dup" {
+			// the same denom listed twice in MaxAmountsIn (each coin is valid, the coin SET is not sorted / unique)
+			den := s.S("d")
+			if den == "" {
+				den = p.PoolAssets[0].Token.Denom
+			}
+			amt := d.size(s.S("sz"), reserve(p, den))
+			maxIn = sdk.Coins{sdk.NewCoin(den, amt.QuoRaw(2).AddRaw(1)), sdk.NewCoin(den, amt)}
+			ev.Args["mode"] = "single" // economically a single-denom deposit
+		} else if s.S("mode") == "single" {
 			den := s.S("d")
 			if den == "" {
 				den = p.PoolAssets[0].Token.Denom
@@ -427,7 +436,11 @@ func (d *Driver) Apply(s Step) bool {
 			}
 			ev.Args["mode"] = "all"
 		}
-		ev.Args["maxIn"] = coinsMap(maxIn)
+		if s.S("mode") == "dup" {
+			ev.Args["maxIn"] = map[string]string{maxIn[1].Denom: maxIn[1].Amount.String()}
+		} else {
+			ev.Args["maxIn"] = coinsMap(maxIn)
+		}
 		ev.Args["shareOut"] = shareOut.String()
 		d.queue(user, ev, &ammtypes.MsgJoinPool{Sender: d.addr(user), PoolId: p.PoolId, MaxAmountsIn: maxIn, ShareAmountOut: shareOut})
 		return true
